@@ -287,8 +287,13 @@ Definition spec_integer_not (a : fval) : outcome fval :=
 (* shift left wraps to 64 bits; shift right is arithmetic (floor division) *)
 Definition spec_integer_shift (a : fval) : outcome fval :=
   match a with
-  | FTup [FInt v; FInt k] =>
-      if in_i64 v && in_i64 k then Val (FInt (if 0 <=? k then spec_shl v k else spec_sar v (- k)))
+  | FTup [FInt v; y] =>
+      if in_i64 v then
+        match y with
+        | FInt k => if in_i64 k then Val (FInt (if 0 <=? k then spec_shl v k else spec_sar v (- k)))
+                    else Err InvalidArgument
+        | _ => Err TypeMismatch
+        end
       else Err InvalidArgument
   | FTup [_; _] => Err TypeMismatch
   | FTup _ => Err InvalidArgument
